@@ -62,6 +62,19 @@ fn lens() -> Vec<String> {
             Ok(Err(e)) => format!("LEN vec_unit {n} err {}", err_class(&e)),
         });
     }
+    // strings around the 31-bit limit of their length prefix, counted by the size calculator (the bytes are never
+    // touched: zeroed pages, no validation, no copy)
+    for n in [(1usize << 31) - 1, 1 << 31, (1 << 31) + 5, (1usize << 32) - 1] {
+        let r = guarded(move || {
+            let s = unsafe { String::from_utf8_unchecked(vec![0u8; n]) };
+            desert::serialize(&s, desert::SizeCalculator::new()).map(|c| c.size())
+        });
+        out.push(match r {
+            Err(p) => format!("LEN str {n} panic {p}"),
+            Ok(Ok(size)) => format!("LEN str {n} ok size={size}"),
+            Ok(Err(e)) => format!("LEN str {n} err {}", err_class(&e)),
+        });
+    }
     // fixed-size arrays of zero-width elements: the length is a const generic, the array costs no memory
     fn arr<const N: usize>(out: &mut Vec<String>) {
         let r = guarded(move || serialize_to_byte_vec(&[(); N]));
